@@ -15,7 +15,7 @@ TB = [
     "C09_wide_ryw hypothesis: writes to one key are issued in the epoch order of their batches (necessary: C09_wide_unordered_refuted, "
     "replayed on the real code on every run); commit in epoch order is C10's statement and is taken as the enabling condition of BgCommit",
     "sequential placement of background steps: commit-visible and after-commit are atomic steps between foreground calls; "
-    "real thread interleavings inside one call are covered only by Cache/FillRace.v (miss path split in two) and by the parallel stress run (H-atomic)",
+    "interleavings inside the miss paths are modelled in Cache/FillGuard*.v (miss = start/miss/read/install, counted write = entry operation + fetch_add, any number of loaders, any grouping of keys): C09_wide_guard_ryw, C09_set_guard_ryw; other intra-call interleavings (two writers on one (key, element) from different batches - overlap_witness_diverges) are excluded by the models' step granularity and covered by the parallel stress run only (H-atomic)",
     "harness observability: 'after-commit of batch b completed' = the batch's own value copies were dropped on a background thread and the "
     "thread named bg_writer_after* is asleep again (/proc); scan order of the store and of the harness' set type is numeric order",
 ]
